@@ -1,14 +1,16 @@
 /-
-Color488Code, all square sizes `L ≥ 1`, C17 part A: the lattice translates of the eight listed
+Color488Code, all sizes `Lx, Ly ≥ 1`, C17 part A: the lattice translates of the eight listed
 logical operators and the parity argument.
 
-All coordinates are taken modulo the period `8L` (`W`), as the class does; a flag `tr` transposes
-the picture (`mk`), so that one argument covers the columns (`tr = false`) and the rows
-(`tr = true`) of qubits; a shift `s ∈ {0, 4}` covers the two kinds of lines (through the squares
+All coordinates are taken modulo their period (`W`: `x` modulo `8Lx`, `y` modulo `8Ly`), as the class
+does; a flag `tr` transposes the picture (`mk`), so that one argument covers the columns
+(`tr = false`) and the rows (`tr = true`) of qubits: `La` is the number of unit cells ACROSS the
+lines (the direction of the translates), `Lb` the number ALONG a line, and the lattice is
+`La × Lb` (`tr = false`) or `Lb × La` (`tr = true`) - `sx`, `sy`; a shift `s ∈ {0, 4}` covers the two kinds of lines (through the squares
 `(8a+4, 8i+4)`, resp. `(8a+8, 8i+8)`); the letter `P` is X (face generators `p = 0`) or Z (`p = 1`).
 
 A dict operator `b` that commutes with every face generator anticommutes (mod 2) with each of the
-`2L` lines `u = 8a+3+s, 8a+5+s` (`a < L`) on as many qubits as with the first one:
+`2·La` lines `u = 8a+3+s, 8a+5+s` (`a < La`) on as many qubits as with the first one:
 * the lines `8a+3+s` and `8a+5+s` differ by the column of squares between them;
 * the lines `8a+5+s` and `8a+11+s` differ by the column of octagons `(8a+8+s, 8i+4+s)` and squares
   `(8a+8+s, 8i+8+s)` between them: the octagons contribute the two lines and the corners of the
@@ -63,39 +65,46 @@ theorem W_wrapS {L i : Nat} (_hi : i < L) (c : Int) :
 /-- a location, transposed or not -/
 def mk (tr : Bool) (a b : Int) : Coord := if tr then [b, a] else [a, b]
 
-/-- `b` commutes with every stabilizer generator of the lattice -/
-def CommStabs (L : Nat) (b : Op) : Prop :=
-  ∀ s ∈ (lattice L L).stabs, opAntiCount ((lattice L L).getStab s) b % 2 = 0
+/-- the lattice size in the picture `tr`: `La` unit cells across the lines, `Lb` along them -/
+def sx (tr : Bool) (La Lb : Nat) : Nat := cond tr Lb La
+def sy (tr : Bool) (La Lb : Nat) : Nat := cond tr La Lb
 
-variable {L : Nat}
+/-- `b` commutes with every stabilizer generator of the lattice -/
+def CommStabs (Lx Ly : Nat) (b : Op) : Prop :=
+  ∀ s ∈ (lattice Lx Ly).stabs, opAntiCount ((lattice Lx Ly).getStab s) b % 2 = 0
 
 /-! ### one generator -/
 
-theorem face_count (hL : 1 ≤ L) {b : Op} (hb : CommStabs L b) {x y p : Int} (hf : IsF L x y)
-    (hp : p = 0 ∨ p = 1) : (supp L x y).countP (opHit (letter p) b) % 2 = 0 := by
-  have hm : [x, y, p] ∈ stabs L L := mem_stabs'.mpr ⟨hf, hp⟩
+theorem face_count {Lx Ly : Nat} (hx : 1 ≤ Lx) (hy : 1 ≤ Ly) {b : Op} (hb : CommStabs Lx Ly b)
+    {x y p : Int} (hf : IsF Lx Ly x y)
+    (hp : p = 0 ∨ p = 1) : (supp Lx Ly x y).countP (opHit (letter p) b) % 2 = 0 := by
+  have hm : [x, y, p] ∈ stabs Lx Ly := mem_stabs'.mpr ⟨hf, hp⟩
   have h := hb [x, y, p] hm
-  rw [getStab_eq hL hm, opAntiCount_line] at h
+  rw [getStab_eq hx hy hm, opAntiCount_line] at h
   exact h
 
-theorem IsF_W (hL : 1 ≤ L) {u v : Int} (hu : u % 4 = 0) (hv : v % 4 = 0) :
-    IsF L (W L u) (W L v) := by
-  have := W_range hL u
-  have := W_range hL v
+theorem IsF_W {Lx Ly : Nat} (hx : 1 ≤ Lx) (hy : 1 ≤ Ly) {u v : Int} (hu : u % 4 = 0)
+    (hv : v % 4 = 0) : IsF Lx Ly (W Lx u) (W Ly v) := by
+  have := W_range hx u
+  have := W_range hy v
   unfold IsF; omega
 
-/-- a square face `(u, v)` (coordinates modulo the period), corners given by name -/
-theorem square_even (tr : Bool) (hL : 1 ≤ L) {b : Op} (hb : CommStabs L b) {p : Int}
+variable {La Lb : Nat}
+
+/-- a square face `(u, v)` (coordinates modulo the periods), corners given by name -/
+theorem square_even (tr : Bool) (hA : 1 ≤ La) (hB : 1 ≤ Lb) {b : Op}
+    (hb : CommStabs (sx tr La Lb) (sy tr La Lb) b) {p : Int}
     (hp : p = 0 ∨ p = 1) {u v : Int} (hu : u % 4 = 0) (hv : v % 4 = 0) (huv : (u + v) % 8 = 0)
-    {um up vm vp : Int} (e1 : W L (u + -1) = um) (e2 : W L (u + 1) = up)
-    (e3 : W L (v + -1) = vm) (e4 : W L (v + 1) = vp) :
+    {um up vm vp : Int} (e1 : W La (u + -1) = um) (e2 : W La (u + 1) = up)
+    (e3 : W Lb (v + -1) = vm) (e4 : W Lb (v + 1) = vp) :
     (ind (letter p) b (mk tr um vm) + ind (letter p) b (mk tr up vp)
       + ind (letter p) b (mk tr um vp) + ind (letter p) b (mk tr up vm)) % 2 = 0 := by
-  have ru := W_range hL u
-  have rv := W_range hL v
+  have ru := W_range hA u
+  have rv := W_range hB v
   subst e1 e2 e3 e4
   cases tr
-  · have h := face_count hL hb (IsF_W hL hu hv) hp
+  · have hb' : CommStabs La Lb b := hb
+    have h := face_count hA hB hb' (IsF_W hA hB hu hv) hp
     unfold supp at h
     rw [if_pos (by omega)] at h
     unfold sqC at h
@@ -103,7 +112,8 @@ theorem square_even (tr : Bool) (hL : 1 ≤ L) {b : Op} (hb : CommStabs L b) {p 
     simp only [mk, Bool.false_eq_true, if_false]
     unfold ind
     omega
-  · have h := face_count hL hb (IsF_W hL hv hu) hp
+  · have hb' : CommStabs Lb La b := hb
+    have h := face_count hB hA hb' (IsF_W hB hA hv hu) hp
     unfold supp at h
     rw [if_pos (by omega)] at h
     unfold sqC at h
@@ -112,22 +122,24 @@ theorem square_even (tr : Bool) (hL : 1 ≤ L) {b : Op} (hb : CommStabs L b) {p 
     unfold ind
     omega
 
-/-- an octagonal face `(u, v)` (coordinates modulo the period), corners given by name -/
-theorem octagon_even (tr : Bool) (hL : 1 ≤ L) {b : Op} (hb : CommStabs L b) {p : Int}
+/-- an octagonal face `(u, v)` (coordinates modulo the periods), corners given by name -/
+theorem octagon_even (tr : Bool) (hA : 1 ≤ La) (hB : 1 ≤ Lb) {b : Op}
+    (hb : CommStabs (sx tr La Lb) (sy tr La Lb) b) {p : Int}
     (hp : p = 0 ∨ p = 1) {u v : Int} (hu : u % 4 = 0) (hv : v % 4 = 0) (huv : (u + v) % 8 = 4)
     {u1m u1p u3m u3p v1m v1p v3m v3p : Int}
-    (e1 : W L (u + -1) = u1m) (e2 : W L (u + 1) = u1p) (e3 : W L (u + -3) = u3m)
-    (e4 : W L (u + 3) = u3p) (e5 : W L (v + -1) = v1m) (e6 : W L (v + 1) = v1p)
-    (e7 : W L (v + -3) = v3m) (e8 : W L (v + 3) = v3p) :
+    (e1 : W La (u + -1) = u1m) (e2 : W La (u + 1) = u1p) (e3 : W La (u + -3) = u3m)
+    (e4 : W La (u + 3) = u3p) (e5 : W Lb (v + -1) = v1m) (e6 : W Lb (v + 1) = v1p)
+    (e7 : W Lb (v + -3) = v3m) (e8 : W Lb (v + 3) = v3p) :
     (ind (letter p) b (mk tr u1p v3m) + ind (letter p) b (mk tr u3p v1m)
       + ind (letter p) b (mk tr u3p v1p) + ind (letter p) b (mk tr u1p v3p)
       + ind (letter p) b (mk tr u1m v3p) + ind (letter p) b (mk tr u3m v1p)
       + ind (letter p) b (mk tr u3m v1m) + ind (letter p) b (mk tr u1m v3m)) % 2 = 0 := by
-  have ru := W_range hL u
-  have rv := W_range hL v
+  have ru := W_range hA u
+  have rv := W_range hB v
   subst e1 e2 e3 e4 e5 e6 e7 e8
   cases tr
-  · have h := face_count hL hb (IsF_W hL hu hv) hp
+  · have hb' : CommStabs La Lb b := hb
+    have h := face_count hA hB hb' (IsF_W hA hB hu hv) hp
     unfold supp at h
     rw [if_neg (by omega)] at h
     unfold ocC at h
@@ -135,7 +147,8 @@ theorem octagon_even (tr : Bool) (hL : 1 ≤ L) {b : Op} (hb : CommStabs L b) {p
     simp only [mk, Bool.false_eq_true, if_false]
     unfold ind
     omega
-  · have h := face_count hL hb (IsF_W hL hv hu) hp
+  · have hb' : CommStabs Lb La b := hb
+    have h := face_count hB hA hb' (IsF_W hB hA hv hu) hp
     unfold supp at h
     rw [if_neg (by omega)] at h
     unfold ocC at h
@@ -146,10 +159,11 @@ theorem octagon_even (tr : Bool) (hL : 1 ≤ L) {b : Op} (hb : CommStabs L b) {p
 
 /-! ### lines of qubits -/
 
-/-- the number of hits of `b` on the line `u` of kind `s`: the qubits `(u, 8i+3+s)`, `(u, 8i+5+s)` -/
-def lineS (L : Nat) (tr : Bool) (P : Pauli) (b : Op) (s u : Int) : Nat :=
-  rsum L (fun i => ind P b (mk tr (W L u) (W L (8 * (i : Int) + 3 + s)))
-    + ind P b (mk tr (W L u) (W L (8 * (i : Int) + 5 + s))))
+/-- the number of hits of `b` on the line `u` of kind `s`: the qubits `(u, 8i+3+s)`, `(u, 8i+5+s)`,
+    `i < Lb` -/
+def lineS (La Lb : Nat) (tr : Bool) (P : Pauli) (b : Op) (s u : Int) : Nat :=
+  rsum Lb (fun i => ind P b (mk tr (W La u) (W Lb (8 * (i : Int) + 3 + s)))
+    + ind P b (mk tr (W La u) (W Lb (8 * (i : Int) + 5 + s))))
 
 /-- the counting core of `linkB`: the rungs `G`, `H` are counted twice (once cyclically shifted) -/
 theorem linkB_core (L : Nat) (A C G H : Nat → Nat)
@@ -160,26 +174,27 @@ theorem linkB_core (L : Nat) (A C G H : Nat → Nat)
   omega
 
 section links
-variable (tr : Bool) (hL : 1 ≤ L) {b : Op} (hb : CommStabs L b) {p : Int} (hp : p = 0 ∨ p = 1)
+variable (tr : Bool) (hA : 1 ≤ La) (hB : 1 ≤ Lb) {b : Op}
+  (hb : CommStabs (sx tr La Lb) (sy tr La Lb) b) {p : Int} (hp : p = 0 ∨ p = 1)
   {s : Int} (hs : s = 0 ∨ s = 4)
-include hL hb hp hs
+include hA hB hb hp hs
 
 /-- the lines `8a+3+s` and `8a+5+s` differ by the column of squares `(8a+4+s, 8i+4+s)` -/
 theorem linkA (a : Nat) :
-    (lineS L tr (letter p) b s (8 * (a : Int) + 3 + s)
-      + lineS L tr (letter p) b s (8 * (a : Int) + 5 + s)) % 2 = 0 := by
-  have h := rsum_even L (g := fun i =>
-      (ind (letter p) b (mk tr (W L (8 * (a : Int) + 3 + s)) (W L (8 * (i : Int) + 3 + s)))
-        + ind (letter p) b (mk tr (W L (8 * (a : Int) + 3 + s)) (W L (8 * (i : Int) + 5 + s))))
-      + (ind (letter p) b (mk tr (W L (8 * (a : Int) + 5 + s)) (W L (8 * (i : Int) + 3 + s)))
-        + ind (letter p) b (mk tr (W L (8 * (a : Int) + 5 + s)) (W L (8 * (i : Int) + 5 + s)))))
+    (lineS La Lb tr (letter p) b s (8 * (a : Int) + 3 + s)
+      + lineS La Lb tr (letter p) b s (8 * (a : Int) + 5 + s)) % 2 = 0 := by
+  have h := rsum_even Lb (g := fun i =>
+      (ind (letter p) b (mk tr (W La (8 * (a : Int) + 3 + s)) (W Lb (8 * (i : Int) + 3 + s)))
+        + ind (letter p) b (mk tr (W La (8 * (a : Int) + 3 + s)) (W Lb (8 * (i : Int) + 5 + s))))
+      + (ind (letter p) b (mk tr (W La (8 * (a : Int) + 5 + s)) (W Lb (8 * (i : Int) + 3 + s)))
+        + ind (letter p) b (mk tr (W La (8 * (a : Int) + 5 + s)) (W Lb (8 * (i : Int) + 5 + s)))))
     (fun i _ => by
-      have := square_even tr hL hb hp (u := 8 * (a : Int) + 4 + s) (v := 8 * (i : Int) + 4 + s)
+      have := square_even tr hA hB hb hp (u := 8 * (a : Int) + 4 + s) (v := 8 * (i : Int) + 4 + s)
         (by omega) (by omega) (by omega)
-        (W_congr L (by omega : 8 * (a : Int) + 4 + s + -1 = 8 * (a : Int) + 3 + s))
-        (W_congr L (by omega : 8 * (a : Int) + 4 + s + 1 = 8 * (a : Int) + 5 + s))
-        (W_congr L (by omega : 8 * (i : Int) + 4 + s + -1 = 8 * (i : Int) + 3 + s))
-        (W_congr L (by omega : 8 * (i : Int) + 4 + s + 1 = 8 * (i : Int) + 5 + s))
+        (W_congr La (by omega : 8 * (a : Int) + 4 + s + -1 = 8 * (a : Int) + 3 + s))
+        (W_congr La (by omega : 8 * (a : Int) + 4 + s + 1 = 8 * (a : Int) + 5 + s))
+        (W_congr Lb (by omega : 8 * (i : Int) + 4 + s + -1 = 8 * (i : Int) + 3 + s))
+        (W_congr Lb (by omega : 8 * (i : Int) + 4 + s + 1 = 8 * (i : Int) + 5 + s))
       omega)
   rw [rsum_add] at h
   exact h
@@ -187,41 +202,41 @@ theorem linkA (a : Nat) :
 /-- the lines `8a+5+s` and `8a+11+s` differ by the column of octagons `(8a+8+s, 8i+4+s)` and
     squares `(8a+8+s, 8i+8+s)` -/
 theorem linkB (a : Nat) :
-    (lineS L tr (letter p) b s (8 * (a : Int) + 5 + s)
-      + lineS L tr (letter p) b s (8 * (a : Int) + 11 + s)) % 2 = 0 := by
+    (lineS La Lb tr (letter p) b s (8 * (a : Int) + 5 + s)
+      + lineS La Lb tr (letter p) b s (8 * (a : Int) + 11 + s)) % 2 = 0 := by
   -- the corners of the squares of the column, in the rows `8i+1+s` and `8i+7+s`
   let G : Nat → Nat := fun i =>
-    ind (letter p) b (mk tr (W L (8 * (a : Int) + 7 + s)) (W L (8 * (i : Int) + 1 + s)))
-      + ind (letter p) b (mk tr (W L (8 * (a : Int) + 9 + s)) (W L (8 * (i : Int) + 1 + s)))
+    ind (letter p) b (mk tr (W La (8 * (a : Int) + 7 + s)) (W Lb (8 * (i : Int) + 1 + s)))
+      + ind (letter p) b (mk tr (W La (8 * (a : Int) + 9 + s)) (W Lb (8 * (i : Int) + 1 + s)))
   let H : Nat → Nat := fun i =>
-    ind (letter p) b (mk tr (W L (8 * (a : Int) + 7 + s)) (W L (8 * (i : Int) + 7 + s)))
-      + ind (letter p) b (mk tr (W L (8 * (a : Int) + 9 + s)) (W L (8 * (i : Int) + 7 + s)))
-  refine linkB_core L
-    (fun i => ind (letter p) b (mk tr (W L (8 * (a : Int) + 5 + s)) (W L (8 * (i : Int) + 3 + s)))
-      + ind (letter p) b (mk tr (W L (8 * (a : Int) + 5 + s)) (W L (8 * (i : Int) + 5 + s))))
-    (fun i => ind (letter p) b (mk tr (W L (8 * (a : Int) + 11 + s)) (W L (8 * (i : Int) + 3 + s)))
-      + ind (letter p) b (mk tr (W L (8 * (a : Int) + 11 + s)) (W L (8 * (i : Int) + 5 + s))))
+    ind (letter p) b (mk tr (W La (8 * (a : Int) + 7 + s)) (W Lb (8 * (i : Int) + 7 + s)))
+      + ind (letter p) b (mk tr (W La (8 * (a : Int) + 9 + s)) (W Lb (8 * (i : Int) + 7 + s)))
+  refine linkB_core Lb
+    (fun i => ind (letter p) b (mk tr (W La (8 * (a : Int) + 5 + s)) (W Lb (8 * (i : Int) + 3 + s)))
+      + ind (letter p) b (mk tr (W La (8 * (a : Int) + 5 + s)) (W Lb (8 * (i : Int) + 5 + s))))
+    (fun i => ind (letter p) b (mk tr (W La (8 * (a : Int) + 11 + s)) (W Lb (8 * (i : Int) + 3 + s)))
+      + ind (letter p) b (mk tr (W La (8 * (a : Int) + 11 + s)) (W Lb (8 * (i : Int) + 5 + s))))
     G H
     (fun i hi => by
-      have ho := octagon_even tr hL hb hp (u := 8 * (a : Int) + 8 + s) (v := 8 * (i : Int) + 4 + s)
+      have ho := octagon_even tr hA hB hb hp (u := 8 * (a : Int) + 8 + s) (v := 8 * (i : Int) + 4 + s)
         (by omega) (by omega) (by omega)
-        (W_congr L (by omega : 8 * (a : Int) + 8 + s + -1 = 8 * (a : Int) + 7 + s))
-        (W_congr L (by omega : 8 * (a : Int) + 8 + s + 1 = 8 * (a : Int) + 9 + s))
-        (W_congr L (by omega : 8 * (a : Int) + 8 + s + -3 = 8 * (a : Int) + 5 + s))
-        (W_congr L (by omega : 8 * (a : Int) + 8 + s + 3 = 8 * (a : Int) + 11 + s))
-        (W_congr L (by omega : 8 * (i : Int) + 4 + s + -1 = 8 * (i : Int) + 3 + s))
-        (W_congr L (by omega : 8 * (i : Int) + 4 + s + 1 = 8 * (i : Int) + 5 + s))
-        (W_congr L (by omega : 8 * (i : Int) + 4 + s + -3 = 8 * (i : Int) + 1 + s))
-        (W_congr L (by omega : 8 * (i : Int) + 4 + s + 3 = 8 * (i : Int) + 7 + s))
-      have hq := square_even tr hL hb hp (u := 8 * (a : Int) + 8 + s) (v := 8 * (i : Int) + 8 + s)
+        (W_congr La (by omega : 8 * (a : Int) + 8 + s + -1 = 8 * (a : Int) + 7 + s))
+        (W_congr La (by omega : 8 * (a : Int) + 8 + s + 1 = 8 * (a : Int) + 9 + s))
+        (W_congr La (by omega : 8 * (a : Int) + 8 + s + -3 = 8 * (a : Int) + 5 + s))
+        (W_congr La (by omega : 8 * (a : Int) + 8 + s + 3 = 8 * (a : Int) + 11 + s))
+        (W_congr Lb (by omega : 8 * (i : Int) + 4 + s + -1 = 8 * (i : Int) + 3 + s))
+        (W_congr Lb (by omega : 8 * (i : Int) + 4 + s + 1 = 8 * (i : Int) + 5 + s))
+        (W_congr Lb (by omega : 8 * (i : Int) + 4 + s + -3 = 8 * (i : Int) + 1 + s))
+        (W_congr Lb (by omega : 8 * (i : Int) + 4 + s + 3 = 8 * (i : Int) + 7 + s))
+      have hq := square_even tr hA hB hb hp (u := 8 * (a : Int) + 8 + s) (v := 8 * (i : Int) + 8 + s)
         (by omega) (by omega) (by omega)
-        (W_congr L (by omega : 8 * (a : Int) + 8 + s + -1 = 8 * (a : Int) + 7 + s))
-        (W_congr L (by omega : 8 * (a : Int) + 8 + s + 1 = 8 * (a : Int) + 9 + s))
-        (W_congr L (by omega : 8 * (i : Int) + 8 + s + -1 = 8 * (i : Int) + 7 + s))
-        ((W_congr L (by omega : 8 * (i : Int) + 8 + s + 1 = 8 * (i : Int) + 8 + (1 + s))).trans
+        (W_congr La (by omega : 8 * (a : Int) + 8 + s + -1 = 8 * (a : Int) + 7 + s))
+        (W_congr La (by omega : 8 * (a : Int) + 8 + s + 1 = 8 * (a : Int) + 9 + s))
+        (W_congr Lb (by omega : 8 * (i : Int) + 8 + s + -1 = 8 * (i : Int) + 7 + s))
+        ((W_congr Lb (by omega : 8 * (i : Int) + 8 + s + 1 = 8 * (i : Int) + 8 + (1 + s))).trans
           ((W_wrapS hi (1 + s)).trans
-            (W_congr L (by omega : 8 * ((wrapS L i : Nat) : Int) + (1 + s)
-              = 8 * ((wrapS L i : Nat) : Int) + 1 + s))))
+            (W_congr Lb (by omega : 8 * ((wrapS Lb i : Nat) : Int) + (1 + s)
+              = 8 * ((wrapS Lb i : Nat) : Int) + 1 + s))))
       simp only [G, H]
       omega)
 
@@ -231,34 +246,35 @@ end links
 def xc (s : Int) (t : Nat) : Int := 8 * ((t / 2 : Nat) : Int) + (if t % 2 = 0 then 3 else 5) + s
 
 /-- every line of the family has the parity of the first one -/
-theorem line_parity (tr : Bool) (hL : 1 ≤ L) {b : Op} (hb : CommStabs L b) {p : Int}
-    (hp : p = 0 ∨ p = 1) {s : Int} (hs : s = 0 ∨ s = 4) (t : Nat) (ht : t < 2 * L) :
-    lineS L tr (letter p) b s (xc s t) % 2 = lineS L tr (letter p) b s (xc s 0) % 2 := by
-  apply chain (2 * L) (fun t => lineS L tr (letter p) b s (xc s t)) ?_ t ht
+theorem line_parity (tr : Bool) (hA : 1 ≤ La) (hB : 1 ≤ Lb) {b : Op}
+    (hb : CommStabs (sx tr La Lb) (sy tr La Lb) b) {p : Int}
+    (hp : p = 0 ∨ p = 1) {s : Int} (hs : s = 0 ∨ s = 4) (t : Nat) (ht : t < 2 * La) :
+    lineS La Lb tr (letter p) b s (xc s t) % 2 = lineS La Lb tr (letter p) b s (xc s 0) % 2 := by
+  apply chain (2 * La) (fun t => lineS La Lb tr (letter p) b s (xc s t)) ?_ t ht
   intro t _
-  show (lineS L tr (letter p) b s (xc s t) + lineS L tr (letter p) b s (xc s (t + 1))) % 2 = 0
+  show (lineS La Lb tr (letter p) b s (xc s t) + lineS La Lb tr (letter p) b s (xc s (t + 1))) % 2 = 0
   by_cases h : t % 2 = 0
   · have e1 : xc s t = 8 * ((t / 2 : Nat) : Int) + 3 + s := by unfold xc; rw [if_pos h]
     have e2 : xc s (t + 1) = 8 * ((t / 2 : Nat) : Int) + 5 + s := by
       unfold xc; rw [if_neg (by omega)]; omega
     rw [e1, e2]
-    exact linkA tr hL hb hp hs (t / 2)
+    exact linkA tr hA hB hb hp hs (t / 2)
   · have e1 : xc s t = 8 * ((t / 2 : Nat) : Int) + 5 + s := by unfold xc; rw [if_neg h]
     have e2 : xc s (t + 1) = 8 * ((t / 2 : Nat) : Int) + 11 + s := by
       unfold xc; rw [if_pos (by omega)]; omega
     rw [e1, e2]
-    exact linkB tr hL hb hp hs (t / 2)
+    exact linkB tr hA hB hb hp hs (t / 2)
 
 /-! ### key lists -/
 
 /-- the qubits of the `t`-th line of kind `s` -/
-def lineK (L : Nat) (tr : Bool) (s : Int) (t : Nat) : List Coord :=
-  (List.range L).flatMap fun (i : Nat) =>
-    [mk tr (W L (xc s t)) (W L (8 * (i : Int) + 3 + s)),
-     mk tr (W L (xc s t)) (W L (8 * (i : Int) + 5 + s))]
+def lineK (La Lb : Nat) (tr : Bool) (s : Int) (t : Nat) : List Coord :=
+  (List.range Lb).flatMap fun (i : Nat) =>
+    [mk tr (W La (xc s t)) (W Lb (8 * (i : Int) + 3 + s)),
+     mk tr (W La (xc s t)) (W Lb (8 * (i : Int) + 5 + s))]
 
 theorem countP_lineK (tr : Bool) (P : Pauli) (b : Op) (s : Int) (t : Nat) :
-    (lineK L tr s t).countP (opHit P b) = lineS L tr P b s (xc s t) := by
+    (lineK La Lb tr s t).countP (opHit P b) = lineS La Lb tr P b s (xc s t) := by
   unfold lineK lineS
   rw [Cubic3D.countP_flatMap_range]
   apply rsum_congr
